@@ -8,7 +8,7 @@
 From Coq Require Import ZArith Bool List.
 From ArmV Require Import Lib.PyZ Lib.Monad Lib.Machine Spec.Pseudocode Spec.Arch Spec.MachineView Spec.Branches Spec.StepFrame
   Spec.OperandSpec Spec.DPSem Proofs.StateLemmas Proofs.CondProofs Proofs.GuardProofs Proofs.DPLemmas Proofs.StepProofs Proofs.StepDP
-  Proofs.StepInstances Proofs.StepInstancesExample.
+  Proofs.StepInstances Proofs.StepInstancesArm Proofs.StepInstancesThumb Proofs.StepInstancesExample.
 From Gen Require Import enums opsyn core exec conc decoders step.
 Import ListNotations.
 Open Scope Z_scope.
@@ -51,6 +51,152 @@ Theorem C01_add_imm_t1_step cfg s w s1 :
     pc_of (AdvancePC (it_step_after s1 s2)) = add32 (pc_of s1) 2.
 Proof. exact (add_imm_t1_step cfg s w s1). Qed.
 Print Assumptions C01_add_imm_t1_step.
+
+(* the other ARM data-processing (immediate) encodings with a destination register: AND, EOR, SUB, RSB, ADC, SBC, RSC, ORR, BIC
+   (A1; bits 24:21 = opcode; for the logical ones the shifter carry of ARMExpandImm_C goes into the C flag) *)
+Theorem C01_andImmediateA1_step cfg s w s1 :
+  ArmV6_fetch_instruction cfg s = Ok w s1 ->
+  0 <= w < 2 ^ 32 -> is_dp_imm_a1 0 0 0 0 w -> iset_of s1 = 0 -> ictx cfg s1 -> cond_holds s1 ->
+  let d := bits w 15 12 in let n := bits w 19 16 in let imm32 := ARMExpandImm (bits w 11 0) in
+  let c := (snd (ARMExpandImm_C (bits w 11 0) (cflag s1))) in
+  let op := (code_AndImmediate, [w; bit w 20; bits w 15 12; bits w 19 16; ARMExpandImm (bits w 11 0); snd (ARMExpandImm_C (bits w 11 0) (cflag s1))]) in
+  exists s2,
+    dp_sem cfg AND (bit w 20) (Some d) n (Op2Imm imm32 c) (begin_instr s1 op) = Ok tt s2 /\
+    ArmV6_emulate_cycle cfg s = Ok tt (AdvancePC (it_step_after s1 s2)) /\
+    pc_of (AdvancePC (it_step_after s1 s2)) = add32 (pc_of s1) (opcode_len s1 / 8).
+Proof. exact (andImmediateA1_step cfg s w s1). Qed.
+Print Assumptions C01_andImmediateA1_step.
+Theorem C01_eorImmediateA1_step cfg s w s1 :
+  ArmV6_fetch_instruction cfg s = Ok w s1 ->
+  0 <= w < 2 ^ 32 -> is_dp_imm_a1 0 0 0 1 w -> iset_of s1 = 0 -> ictx cfg s1 -> cond_holds s1 ->
+  let d := bits w 15 12 in let n := bits w 19 16 in let imm32 := ARMExpandImm (bits w 11 0) in
+  let c := (snd (ARMExpandImm_C (bits w 11 0) (cflag s1))) in
+  let op := (code_EorImmediate, [w; bit w 20; bits w 15 12; bits w 19 16; ARMExpandImm (bits w 11 0); snd (ARMExpandImm_C (bits w 11 0) (cflag s1))]) in
+  exists s2,
+    dp_sem cfg EOR (bit w 20) (Some d) n (Op2Imm imm32 c) (begin_instr s1 op) = Ok tt s2 /\
+    ArmV6_emulate_cycle cfg s = Ok tt (AdvancePC (it_step_after s1 s2)) /\
+    pc_of (AdvancePC (it_step_after s1 s2)) = add32 (pc_of s1) (opcode_len s1 / 8).
+Proof. exact (eorImmediateA1_step cfg s w s1). Qed.
+Print Assumptions C01_eorImmediateA1_step.
+Theorem C01_subImmediateArmA1_step cfg s w s1 :
+  ArmV6_fetch_instruction cfg s = Ok w s1 ->
+  0 <= w < 2 ^ 32 -> is_dp_imm_a1 0 0 1 0 w -> iset_of s1 = 0 -> ictx cfg s1 -> cond_holds s1 ->
+  let d := bits w 15 12 in let n := bits w 19 16 in let imm32 := ARMExpandImm (bits w 11 0) in
+  let c := 0 in
+  let op := (code_SubImmediateArm, [w; bit w 20; bits w 15 12; bits w 19 16; ARMExpandImm (bits w 11 0)]) in
+  exists s2,
+    dp_sem cfg SUB (bit w 20) (Some d) n (Op2Imm imm32 c) (begin_instr s1 op) = Ok tt s2 /\
+    ArmV6_emulate_cycle cfg s = Ok tt (AdvancePC (it_step_after s1 s2)) /\
+    pc_of (AdvancePC (it_step_after s1 s2)) = add32 (pc_of s1) (opcode_len s1 / 8).
+Proof. exact (subImmediateArmA1_step cfg s w s1). Qed.
+Print Assumptions C01_subImmediateArmA1_step.
+Theorem C01_rsbImmediateA1_step cfg s w s1 :
+  ArmV6_fetch_instruction cfg s = Ok w s1 ->
+  0 <= w < 2 ^ 32 -> is_dp_imm_a1 0 0 1 1 w -> iset_of s1 = 0 -> ictx cfg s1 -> cond_holds s1 ->
+  let d := bits w 15 12 in let n := bits w 19 16 in let imm32 := ARMExpandImm (bits w 11 0) in
+  let c := 0 in
+  let op := (code_RsbImmediate, [w; bit w 20; bits w 15 12; bits w 19 16; ARMExpandImm (bits w 11 0)]) in
+  exists s2,
+    dp_sem cfg RSB (bit w 20) (Some d) n (Op2Imm imm32 c) (begin_instr s1 op) = Ok tt s2 /\
+    ArmV6_emulate_cycle cfg s = Ok tt (AdvancePC (it_step_after s1 s2)) /\
+    pc_of (AdvancePC (it_step_after s1 s2)) = add32 (pc_of s1) (opcode_len s1 / 8).
+Proof. exact (rsbImmediateA1_step cfg s w s1). Qed.
+Print Assumptions C01_rsbImmediateA1_step.
+Theorem C01_adcImmediateA1_step cfg s w s1 :
+  ArmV6_fetch_instruction cfg s = Ok w s1 ->
+  0 <= w < 2 ^ 32 -> is_dp_imm_a1 0 1 0 1 w -> iset_of s1 = 0 -> ictx cfg s1 -> cond_holds s1 ->
+  let d := bits w 15 12 in let n := bits w 19 16 in let imm32 := ARMExpandImm (bits w 11 0) in
+  let c := 0 in
+  let op := (code_AdcImmediate, [w; bit w 20; bits w 15 12; bits w 19 16; ARMExpandImm (bits w 11 0)]) in
+  exists s2,
+    dp_sem cfg ADC (bit w 20) (Some d) n (Op2Imm imm32 c) (begin_instr s1 op) = Ok tt s2 /\
+    ArmV6_emulate_cycle cfg s = Ok tt (AdvancePC (it_step_after s1 s2)) /\
+    pc_of (AdvancePC (it_step_after s1 s2)) = add32 (pc_of s1) (opcode_len s1 / 8).
+Proof. exact (adcImmediateA1_step cfg s w s1). Qed.
+Print Assumptions C01_adcImmediateA1_step.
+Theorem C01_sbcImmediateA1_step cfg s w s1 :
+  ArmV6_fetch_instruction cfg s = Ok w s1 ->
+  0 <= w < 2 ^ 32 -> is_dp_imm_a1 0 1 1 0 w -> iset_of s1 = 0 -> ictx cfg s1 -> cond_holds s1 ->
+  let d := bits w 15 12 in let n := bits w 19 16 in let imm32 := ARMExpandImm (bits w 11 0) in
+  let c := 0 in
+  let op := (code_SbcImmediate, [w; bit w 20; bits w 15 12; bits w 19 16; ARMExpandImm (bits w 11 0)]) in
+  exists s2,
+    dp_sem cfg SBC (bit w 20) (Some d) n (Op2Imm imm32 c) (begin_instr s1 op) = Ok tt s2 /\
+    ArmV6_emulate_cycle cfg s = Ok tt (AdvancePC (it_step_after s1 s2)) /\
+    pc_of (AdvancePC (it_step_after s1 s2)) = add32 (pc_of s1) (opcode_len s1 / 8).
+Proof. exact (sbcImmediateA1_step cfg s w s1). Qed.
+Print Assumptions C01_sbcImmediateA1_step.
+Theorem C01_rscImmediateA1_step cfg s w s1 :
+  ArmV6_fetch_instruction cfg s = Ok w s1 ->
+  0 <= w < 2 ^ 32 -> is_dp_imm_a1 0 1 1 1 w -> iset_of s1 = 0 -> ictx cfg s1 -> cond_holds s1 ->
+  let d := bits w 15 12 in let n := bits w 19 16 in let imm32 := ARMExpandImm (bits w 11 0) in
+  let c := 0 in
+  let op := (code_RscImmediate, [w; bit w 20; bits w 15 12; bits w 19 16; ARMExpandImm (bits w 11 0)]) in
+  exists s2,
+    dp_sem cfg RSC (bit w 20) (Some d) n (Op2Imm imm32 c) (begin_instr s1 op) = Ok tt s2 /\
+    ArmV6_emulate_cycle cfg s = Ok tt (AdvancePC (it_step_after s1 s2)) /\
+    pc_of (AdvancePC (it_step_after s1 s2)) = add32 (pc_of s1) (opcode_len s1 / 8).
+Proof. exact (rscImmediateA1_step cfg s w s1). Qed.
+Print Assumptions C01_rscImmediateA1_step.
+Theorem C01_orrImmediateA1_step cfg s w s1 :
+  ArmV6_fetch_instruction cfg s = Ok w s1 ->
+  0 <= w < 2 ^ 32 -> is_dp_imm_a1 1 1 0 0 w -> iset_of s1 = 0 -> ictx cfg s1 -> cond_holds s1 ->
+  let d := bits w 15 12 in let n := bits w 19 16 in let imm32 := ARMExpandImm (bits w 11 0) in
+  let c := (snd (ARMExpandImm_C (bits w 11 0) (cflag s1))) in
+  let op := (code_OrrImmediate, [w; bit w 20; bits w 15 12; bits w 19 16; ARMExpandImm (bits w 11 0); snd (ARMExpandImm_C (bits w 11 0) (cflag s1))]) in
+  exists s2,
+    dp_sem cfg ORR (bit w 20) (Some d) n (Op2Imm imm32 c) (begin_instr s1 op) = Ok tt s2 /\
+    ArmV6_emulate_cycle cfg s = Ok tt (AdvancePC (it_step_after s1 s2)) /\
+    pc_of (AdvancePC (it_step_after s1 s2)) = add32 (pc_of s1) (opcode_len s1 / 8).
+Proof. exact (orrImmediateA1_step cfg s w s1). Qed.
+Print Assumptions C01_orrImmediateA1_step.
+Theorem C01_bicImmediateA1_step cfg s w s1 :
+  ArmV6_fetch_instruction cfg s = Ok w s1 ->
+  0 <= w < 2 ^ 32 -> is_dp_imm_a1 1 1 1 0 w -> iset_of s1 = 0 -> ictx cfg s1 -> cond_holds s1 ->
+  let d := bits w 15 12 in let n := bits w 19 16 in let imm32 := ARMExpandImm (bits w 11 0) in
+  let c := (snd (ARMExpandImm_C (bits w 11 0) (cflag s1))) in
+  let op := (code_BicImmediate, [w; bit w 20; bits w 15 12; bits w 19 16; ARMExpandImm (bits w 11 0); snd (ARMExpandImm_C (bits w 11 0) (cflag s1))]) in
+  exists s2,
+    dp_sem cfg BIC (bit w 20) (Some d) n (Op2Imm imm32 c) (begin_instr s1 op) = Ok tt s2 /\
+    ArmV6_emulate_cycle cfg s = Ok tt (AdvancePC (it_step_after s1 s2)) /\
+    pc_of (AdvancePC (it_step_after s1 s2)) = add32 (pc_of s1) (opcode_len s1 / 8).
+Proof. exact (bicImmediateA1_step cfg s w s1). Qed.
+Print Assumptions C01_bicImmediateA1_step.
+
+(* three more 16-bit Thumb encodings whose flag setting is !InITBlock(): SUB (3-bit immediate) T1, ADD / SUB (8-bit immediate) T2 *)
+Theorem C01_subImmediateThumbT1_step cfg s w s1 :
+  ArmV6_fetch_instruction cfg s = Ok w s1 ->
+  0 <= w < 2 ^ 16 -> is_subImmediateThumbT1 w -> iset_of s1 = 1 -> opcode_len s1 = 16 -> ictx cfg s1 -> cond_holds s1 ->
+  let d := bits w 2 0 in let n := bits w 5 3 in let imm32 := bits w 8 6 in
+  let op := (code_SubImmediateThumb, [w; not_in_it s1; d; n; imm32]) in
+  exists s2,
+    dp_sem cfg SUB (not_in_it s1) (Some d) n (Op2Imm imm32 0) (begin_instr s1 op) = Ok tt s2 /\
+    ArmV6_emulate_cycle cfg s = Ok tt (AdvancePC (it_step_after s1 s2)) /\
+    pc_of (AdvancePC (it_step_after s1 s2)) = add32 (pc_of s1) 2.
+Proof. exact (subImmediateThumbT1_step cfg s w s1). Qed.
+Print Assumptions C01_subImmediateThumbT1_step.
+Theorem C01_addImmediateThumbT2_step cfg s w s1 :
+  ArmV6_fetch_instruction cfg s = Ok w s1 ->
+  0 <= w < 2 ^ 16 -> is_addImmediateThumbT2 w -> iset_of s1 = 1 -> opcode_len s1 = 16 -> ictx cfg s1 -> cond_holds s1 ->
+  let d := bits w 10 8 in let n := bits w 10 8 in let imm32 := bits w 7 0 in
+  let op := (code_AddImmediateThumb, [w; not_in_it s1; d; n; imm32]) in
+  exists s2,
+    dp_sem cfg ADD (not_in_it s1) (Some d) n (Op2Imm imm32 0) (begin_instr s1 op) = Ok tt s2 /\
+    ArmV6_emulate_cycle cfg s = Ok tt (AdvancePC (it_step_after s1 s2)) /\
+    pc_of (AdvancePC (it_step_after s1 s2)) = add32 (pc_of s1) 2.
+Proof. exact (addImmediateThumbT2_step cfg s w s1). Qed.
+Print Assumptions C01_addImmediateThumbT2_step.
+Theorem C01_subImmediateThumbT2_step cfg s w s1 :
+  ArmV6_fetch_instruction cfg s = Ok w s1 ->
+  0 <= w < 2 ^ 16 -> is_subImmediateThumbT2 w -> iset_of s1 = 1 -> opcode_len s1 = 16 -> ictx cfg s1 -> cond_holds s1 ->
+  let d := bits w 10 8 in let n := bits w 10 8 in let imm32 := bits w 7 0 in
+  let op := (code_SubImmediateThumb, [w; not_in_it s1; d; n; imm32]) in
+  exists s2,
+    dp_sem cfg SUB (not_in_it s1) (Some d) n (Op2Imm imm32 0) (begin_instr s1 op) = Ok tt s2 /\
+    ArmV6_emulate_cycle cfg s = Ok tt (AdvancePC (it_step_after s1 s2)) /\
+    pc_of (AdvancePC (it_step_after s1 s2)) = add32 (pc_of s1) 2.
+Proof. exact (subImmediateThumbT2_step cfg s w s1). Qed.
+Print Assumptions C01_subImmediateThumbT2_step.
 
 (* the hypotheses are satisfiable: ADDSNE r2, r1, #4 (ARM, Z clear) and ADD r1, r2, #3 as the last instruction of an IT EQ block *)
 Example C01_add_imm_a1_step_example :
